@@ -86,6 +86,28 @@ reg(
     "DESIGN.md 4.5 C19",
 )
 
+reg(
+    "C03",
+    "Finite-domain exhaustion: every access matrix over a small entry set x every bounds vector from {1,2,3,4,6,8} for 1-3 operands and 1-3 iteration dims, "
+    "matmul maps under all dimension permutations with single-entry perturbations, against nine templates (bounded, unbounded, tiled, matmul, broadcast-row, "
+    "rank-mismatched) and subsets of the extra checks; for EVERY schedule yielded by the real scheduler_backtrack the multiset of operand-index tuples over "
+    "the whole iteration box must equal the original's, a harness-side wrapper asserts that the scheduler only ever tiles dividing bounds, and each elementary "
+    "transformation (rotate, tile_dim, add_dim, clear_unused_dims, canonicalize) is checked on its own on every small matrix.",
+    "Trusted: multiset evaluation with numpy integer arithmetic. Matrices with entries beyond the menu / more than 3 iteration dims (4 with batch) not covered.",
+    "explicit enumeration of a finite argument domain, all backtracking results, multiset equality over all points of the index box",
+    "DESIGN.md 4.2 C03",
+)
+reg(
+    "C16",
+    "Same enumeration as C03; every yielded schedule is re-decided against the template by an exact matcher (row-space equality over Q by Fraction Gaussian "
+    "elimination with the documented broadcast-row rule), inner bounds are compared with the template bounds, every requested constraint is re-evaluated by an "
+    "independent implementation written from its docstring, and the template-matching predicate itself is compared with exact row-space equality on ~700k "
+    "pairs of small integer matrices (where a float tolerance or a transposed projector would show).",
+    "Trusted: the exact matcher and the re-implemented constraints in checks/sched_common.py.",
+    "explicit enumeration of a finite argument domain, all backtracking results, exact-arithmetic reference predicate",
+    "DESIGN.md 4.2 C16",
+)
+
 NOT_APPLICABLE = []
 
 ALL = [f"C{i:02d}" for i in range(1, 21)]
